@@ -121,6 +121,15 @@ JudgeDecU(t, i, T, v, e) ==
             /\ Check(t, i, "ReencodeDiffers", c4) /\ Check(t, i, "LeavesDiffer", c5) /\ Check(t, i, "RestDiffers", c6)
             /\ LET D == SrcDevs(t, T, v, [e EXCEPT !.tail = <<>>]) IN IF D = {} THEN TRUE ELSE PrintT(<<"DEV", Cases[t].id, i, D>>)
 
+(* every proper prefix of one encoding, decoded one-shot: e.sts[k+1] is the outcome for the first k octets (C06) *)
+JudgePfxs(t, i, T, v, e) ==
+  LET bad == {k \in 1..Len(e.sts) : e.sts[k] # "underrun"} IN
+  IF bad = {} THEN TRUE
+  ELSE IF ~e.guided /\ ~NoImplicit(T) THEN TRUE   \* without its type only a self-describing encoding is an encoding at all
+  ELSE /\ \A k \in bad : PrintT(<<"REJECTK", Cases[t].id, i, IF e.sts[k] = "crash" THEN "Crash" ELSE "NotUnderrun", k - 1>>)
+       /\ IF e.src = 0 THEN TRUE
+          ELSE LET D == Explains(T, v, Cases[t].ev[e.src]) IN IF D = {} THEN TRUE ELSE PrintT(<<"DEV", Cases[t].id, i, D>>)
+
 (* several decoders accepted the same input: same abstract value (C02) *)
 JudgeAgree(t, i, T, v, e) ==
   Check(t, i, "Disagree", \A a, b \in 1..Len(e.vs) : Norm(T, e.vs[a]) = Norm(T, e.vs[b]))
@@ -131,6 +140,7 @@ Judge(t, i) ==
     [] e.op = "dec" -> JudgeDec(t, i, c.T, c.v, e)
     [] e.op = "decu" -> JudgeDecU(t, i, c.T, c.v, e)
     [] e.op = "agree" -> JudgeAgree(t, i, c.T, c.v, e)
+    [] e.op = "pfxs" -> JudgePfxs(t, i, c.T, c.v, e)
     [] e.op = "tags" -> JudgeTags(t, i, c.T, c.v, e)
     [] e.op = "tagx" -> JudgeTagX(t, i, c.T, c.v, e)
 
